@@ -5,6 +5,8 @@ from .. import conds
 from .common import *
 from . import leaf
 
+CRATES = (EY,)
+
 META = {
     "explanation": (
         "Static decision of the structural clauses of C03 on MIR: (R03.1) call-graph who-may-call rule - the function that "
